@@ -89,6 +89,61 @@ def reference_lint(chk, rule="references-resolve"):
     chk.decide(not dup, rule, "core/tests/currency.snapshot.json", "unique", "", "snapshot names are unique", "duplicate snapshot names %s" % dup)
 
 
+def overlay_rebinding(chk, rule="overlay-does-not-rebind"):
+    """The currency overlay is loaded after (and separately from) definitions.units, so the values of the base entries
+    are already fixed; the recorded definition text of a base entry keeps meaning what it meant only if every identifier
+    it mentions reads the same (exact -> prefix -> plural) before and after the overlay's names exist."""
+    d = defs()
+    cur = defs("currency.units")
+    snapnames = [e["name"] for e in snapshot()]
+
+    def tables(ds, extra=()):
+        ns = ulint.namespaces(ds)
+        exact = set(n for (k, n) in ns if k in ("unit", "quantity")) | set(
+            n for (k, n), v in ns.items() if k == "prefix" and any(x["kind"] == "prefixL" for x in v)) | set(extra)
+        prefixes = [x["name"] for x in ds if x["kind"] in ("prefixL", "prefixS")]
+        return exact, prefixes
+
+    def reading(n, exact, prefixes):
+        def wp(m):
+            if m in exact:
+                return ("exact", m)
+            for p in prefixes:
+                if m.startswith(p) and m[len(p):] in exact:
+                    return ("prefix", p, m[len(p):])
+            return None
+        r = wp(n)
+        if r:
+            return r
+        if n.endswith("s"):
+            r = wp(n[:-1])
+            if r:
+                return ("plural",) + r
+        return None
+    e0, p0 = tables(d)
+    e1, p1 = tables(d + cur, snapnames)
+    changed = []
+    nrefs = 0
+    for x in d:
+        if x["kind"] in ("quantity", "category") or x["kind"].startswith("prefix"):
+            continue
+        exprs = [x["expr"]] if "expr" in x else []
+        for pr in x.get("props", []):
+            exprs += [pr["input"], pr["output"]]
+        for e in exprs:
+            o = []
+            ulint.names_in(e, o)
+            for n in o:
+                nrefs += 1
+                a, b = reading(n, e0, p0), reading(n, e1, p1)
+                if a is not None and a != b:
+                    changed.append("%s: `%s` read as %s before and %s after the overlay" % (x["name"], n, "+".join(a), "+".join(b)))
+    new = sorted((e1 - e0))
+    chk.decide(not changed, rule, "core/currency.units", "base-identifiers-keep-their-reading", "core/currency.units",
+               "%d identifier references of definitions.units read the same with the %d names the currency overlay adds" % (nrefs, len(new)),
+               "the currency overlay changes what loaded definitions mean: %s" % "; ".join(changed[:5]))
+
+
 def quantity_injective(chk, rule="quantities-injective"):
     """Each quantity names one dimensionality and each dimensionality at most one quantity."""
     d = defs()
